@@ -40,7 +40,7 @@ REQUIRED = {"wild.formatter_events_grammar": {"quick": 8, "thorough": 300}, "eve
             "progress3.chars": {"quick": 500, "thorough": 25000}, "json.readback_file": {"quick": 100, "thorough": 300},
             "factory.own_file_has_own_report": {"quick": 150, "thorough": 6000},
             "factory.formatter_without_file_writes_stdout": {"quick": 50, "thorough": 2000}}
-REQUIRED_SEEN = {"terminal_size_reported": ["some_rows_some_columns", "some_rows_zero_columns", "zero_rows_some_columns", "zero_rows_zero_columns"], "environment_habit": ["raising_testrun_cleanup"], "config_file_outfiles": ["given", "none"], "formatter_active": BUILTINS, "pretty_step_line_length": ["at_a_multiple_of_the_terminal_width", "next_to_a_multiple"]}
+REQUIRED_SEEN = {"nested_sub_step": ["fail", "undefined", "error"], "terminal_size_reported": ["some_rows_some_columns", "some_rows_zero_columns", "zero_rows_some_columns", "zero_rows_zero_columns"], "environment_habit": ["raising_testrun_cleanup", "no_background_fixture_with_status_reading_hooks"], "config_file_outfiles": ["given", "none"], "formatter_active": BUILTINS, "pretty_step_line_length": ["at_a_multiple_of_the_terminal_width", "next_to_a_multiple"]}
 NSHARDS = {"quick": 16, "thorough": 16}
 DOT = {"passed": ".", "failed": "F", "error": "E", "hook_error": "H", "skipped": "S", "untested": "_",
        "untested_pending": "p", "untested_undefined": "u", "undefined": "U", "pending": "P", "pending_warn": "p"}
@@ -518,8 +518,19 @@ def run_case(lab, mon, case, names, sample=False, real_files=None):
             second["ok"] = True
         except BaseException as ex:       # noqa
             second["error"] = repr(ex)
+    nested = case.get("nested") or {}
+    busy = [False]
+
+    def nest_plugin(state, context, text):
+        if text in nested and not busy[0]:
+            busy[0] = True
+            try:
+                context.execute_steps(u"Given %s\n" % nested[text])
+            finally:
+                busy[0] = False
     try:
         obs = lab.run(case["program"], args=case["args"], formatters=formatters, hook_fault=case.get("hook_fault"),
+                      step_plugins=[nest_plugin] if nested else [],
                       second_run=(second_run if (real_files and not case.get("hook_fault")) else None))
         if second:
             W2 = lambda **kw: RB.witness(case, formatters=names, output_files=real_files, **kw)
@@ -869,6 +880,37 @@ def run(spec, mon):
             lab.extra_hook_plugins = [testrun_cleanup]
             case = dict(case, raising_cleanup="registered in before_all for the end of the test run")
             mon.seen("environment_habit", "raising_testrun_cleanup")
+        if i % 6 == 4 and not case["cfg"]["dry_run"] and not case.get("hook_fault") and \
+                not any(oc in ("ki", "abort") for oc in case["program"]["outcomes"].values()):
+            # (no aborting outcomes in these programs: which features start is read off the fault-free model)
+            # a step that runs a sub-step with context.execute_steps() -- and the sub-step fails / is undefined: the calling step is
+            # reported failed like any failing step, and the reports go on with the scenarios that follow
+            cands = [t for t, oc in case["program"]["outcomes"].items() if oc == "pass" and t[0] == "k"]
+            if cands:
+                sub_kind = rng.choice(["fail", "undefined", "error"])
+                sub = ("u9%d sub step" if sub_kind == "undefined" else "k9%d sub step") % rng.randrange(1000, 9999)
+                if sub_kind != "undefined":
+                    case["program"]["outcomes"][sub] = sub_kind
+                case = dict(case, nested={rng.choice(cands): sub}, args=[a for a in case["args"] if a != "--stop"], cfg=dict(case["cfg"], stop=False))
+                mon.seen("nested_sub_step", sub_kind)
+        if i % 8 == 5 and not case.get("hook_fault"):
+            # the documented "no background" fixture (examples/fixture.no_background): a tag hook switches the background of the
+            # scenario in hand off -- in an environment whose hooks also LOOK at statuses (feature.status) while the run is going on
+            def no_background(state, context, name, elem, tag):
+                sc = getattr(context, "scenario", None) if "scenario" in context else None
+                if name == "before_tag" and tag in ("e", "a", "c") and sc is not None:
+                    sc.use_background = False
+                if name in ("after_scenario", "before_scenario"):
+                    f = getattr(context, "feature", None)
+                    if f is not None:
+                        try:
+                            _ = f.status
+                            _ = [x.status for x in f.walk_scenarios()]
+                        except Exception:
+                            pass
+            lab.extra_hook_plugins = list(lab.extra_hook_plugins or []) + [no_background]
+            case = dict(case, environment="no_background fixture for @e @a @c + status-reading hooks")
+            mon.seen("environment_habit", "no_background_fixture_with_status_reading_hooks")
         try:
             run_case(lab, mon, case, names, sample=(i == 0 and spec["shard"] == 0))
         finally:
